@@ -1470,6 +1470,11 @@ class Tensor(object):
     ):
 
         key = self._process_key(key)
+        if not self.batch and any(
+            isinstance(k, slice) and len(range(*k.indices(self.shape[i]))) == 0
+            for i, k in enumerate(key)
+        ):
+            return  # Empty selection: nothing to assign (as in NumPy)
         scalar = False
         if isinstance(value, np.ndarray):
             value = tn.Tensor(torch.tensor(value), batch=self.batch)
